@@ -118,7 +118,7 @@ Proof.
   rewrite flat_filter_cons.
   change (flat_map nargs (n :: r)) with (nargs n ++ flat_map nargs r).
   rewrite (filter_app _ (nargs n) (flat_map nargs r)), app_length.
-  destruct (mem_in w (nargs n)) eqn:E; cbv iota.
+  destruct (mem_in w (nargs n)) eqn:E; cbv iota; unfold wid in *.
   - rewrite filter_app, app_length. f_equal. exact IH.
   - rewrite (filter_none _ _ E). exact IH.
 Qed.
